@@ -36,7 +36,9 @@ def dissims(tier):
     on the alignment under a too coarse key (alpha only, delta_empty only, nothing) is observed."""
     cats = [None, {"k": "ord", "labels": ["", "x", "y", "z"]}, {"k": "lev", "labels": ["", "x", "y", "z", "xyz", "w"]}]
     combos = [(1.0, 1.0, 1.0, 0), (1.0, 1.0, 2.0, 1), (1.0, 2.0, 0.5, 0), (0.0, 1.0, 1.0, 0), (0.0, 1.0, 2.0, 2),
-              (3.0, 2.0, 0.5, 0), (3.0, 1.0, 1.0, 1), (0.5, 1.0, 0.5, 2), (0.5, 1.0, 1.0, 0)]
+              (3.0, 2.0, 0.5, 0), (3.0, 1.0, 1.0, 1), (0.5, 1.0, 0.5, 2), (0.5, 1.0, 1.0, 0),
+              # beta = 0: the alignment's own disorders say nothing about categories (the categorical disorder does not use beta)
+              (1.0, 0.0, 1.0, 0), (2.0, 0.0, 0.5, 1)]
     if tier == "thorough":
         combos += [(1.0, 0.5, 0.5, 1), (3.0, 1.0, 2.0, 2), (1.0, 1.0, 1.0, 2), (2.0, 1.0, 1.0, 0), (2.0, 1.0, 1.0, 1)]
     out = []
@@ -46,6 +48,10 @@ def dissims(tier):
             r["cat"] = cats[ci]
         out.append(r)
     return out
+
+
+BETA0 = {"k": "comb", "a": 1.0, "b": 0.0, "de": 1.0}
+POS_ONLY = {"k": "pos", "de": 1.0}
 
 
 def cat_fn(recipe):
@@ -167,18 +173,37 @@ def run(task):
         byann = spec_by_annotator(spec)
         c = build_continuum(spec)
         aligns = [("enum", nts, False) for nts in all_alignments(byann, cap)]
+        lib_objs = {}
         for kind in ("best", "soft"):
             obs = A.eval_case(spec, D[0], "cbc", kind)
             if obs["ok"]:
                 aligns.append((kind, obs["nts"], kind == "soft"))
+            # the library's own alignment object (it carries the unitary disorders of the dissimilarity that built
+            # it) for a dissimilarity that ignores categories: judged with every recipe below
+            try:
+                lal = A.run_alignment(c, A.DISSIMS.get(BETA0), kind)
+                lib_objs[len(aligns)] = lal
+                aligns.append((kind + "-beta0-object", A.observe_alignment(lal)[0], kind == "soft"))
+            except Exception:  # noqa
+                pass
         labels = A.spec_label_set(spec)
         cats = [None] + [l for l in labels if l is not None] + ["w"]
-        for src, nts, soft in aligns:
-            al = lib_alignment(pa, nts, c, soft)
+        for ai, (src, nts, soft) in enumerate(aligns):
+            al = lib_objs.get(ai) or lib_alignment(pa, nts, c, soft)
             # forwards with every category, then backwards (gamma-cat and one category) on the SAME object
             plan = [(r, cats) for r in D] + [(r, cats[:2]) for r in reversed(D[:-1])]
-            for recipe, cat_list in plan:
+            for pi, (recipe, cat_list) in enumerate(plan):
                 d = A.DISSIMS.get(recipe)
+                prior = "beta0-object" if ai in lib_objs else None
+                if pi >= len(D) and ai % 2 == 0:
+                    prior = (prior or "") + ("+pos" if pi % 2 == 0 else "+self")
+                    # backwards pass: in between, the caller (re)computes the alignment's disorder with a dissimilarity
+                    # that does not look at categories, or with the one about to be used - the stored unitary
+                    # disorders then say nothing about the categorical one
+                    try:
+                        al.compute_disorder(A.DISSIMS.get(POS_ONLY) if pi % 2 == 0 else d)
+                    except Exception:  # noqa
+                        pass
                 for category in cat_list:
                     res["evaluations"] += 1
                     res["transitions"] += 1
@@ -199,7 +224,8 @@ def run(task):
                         res["violations"].append({
                             "msg": f"categorical disorder (category {category!r}) is {got if got is not None else err} "
                                    f"but the definition gives {want}",
-                            "case": {"nts": nts, "recipe": recipe, "category": category, "soft": soft, "spec": spec}})
+                            "case": {"nts": nts, "recipe": recipe, "category": category, "soft": soft, "spec": spec,
+                                     "prior": prior}})
                     elif 0 < want and nontrivial(nts, recipe, category):
                         res["nontrivial"].append(key)
                         if len(res["samples"]) < 2:
@@ -338,7 +364,16 @@ def replay(case):
                 and v["case"]["results"]["subset"] == r["subset"] and v["case"]["results"]["category"] == r["category"]]
     nts = [[(a, None if u is None else tuple(u)) for a, u in nt] for nt in case["nts"]]
     c = build_continuum(case["spec"])
-    al = lib_alignment(pa, nts, c, case.get("soft", False))
+    prior = case.get("prior") or ""
+    if prior.startswith("beta0-object"):
+        al = A.run_alignment(c, A.DISSIMS.get(BETA0), "soft" if case.get("soft") else "best")
+        nts = A.observe_alignment(al)[0]
+    else:
+        al = lib_alignment(pa, nts, c, case.get("soft", False))
+    if prior.endswith("+pos"):
+        al.compute_disorder(A.DISSIMS.get(POS_ONLY))
+    elif prior.endswith("+self"):
+        al.compute_disorder(A.DISSIMS.get(case["recipe"]))
     want = oracle_cat_disorder(nts, case["recipe"], case["category"])
     try:
         got = float(al.gamma_k_disorder(A.DISSIMS.get(case["recipe"]), case["category"]))
